@@ -56,6 +56,10 @@ def items(tier, seed):
         for cap in caps:
             for ch in chunks(cheap_scripts, per):
                 out.append(dict(name=f"cheap-{name}-cap{cap}-{ch[0]}", kind="off", routine=name, mode="cheap", cap=cap, warm=10**6, scripts=ch, seed=seed))
+        # a step that is terminated AND truncated at once (quick: one deviation; the thorough alphabet has it anyway)
+        if q:
+            for ch in chunks([sc for sc in senv.scripts(T, "cTUB", 1) if "B" in sc], per):
+                out.append(dict(name=f"cheap-{name}-both-{ch[0]}", kind="off", routine=name, mode="cheap", cap=caps[-1], warm=10**6, scripts=ch, seed=seed))
         # reward number type: the first reward is a Python int, later rewards are fractional floats
         for ch in chunks(senv.scripts(T, "cTU", 1), per):
             out.append(dict(name=f"cheap-{name}-intfirst-{ch[0]}", kind="off", routine=name, mode="cheap", cap=caps[-1], warm=10**6, scripts=ch, seed=seed, reward_kind="intfirst"))
@@ -71,6 +75,9 @@ def items(tier, seed):
         for warm, cap in combos:
             for ch in chunks(learn_scripts, per):
                 out.append(dict(name=f"learn-{name}-w{warm}-cap{cap}-{ch[0]}", kind="off", routine=name, mode="learn", cap=cap, warm=warm, scripts=ch, seed=seed))
+    # the multi-task wrapper handed to a single-task routine, as the multi-task schedulers do (select_task, then train)
+    for name in ("ddpg", "td3_lap", "sac"):
+        out.append(dict(name=f"mt-wrapper-{name}", kind="mt-wrapper", routine=name, seed=seed, caps=[3, 16] if q else [2, 3, 5, 16]))
     # MR.Q creating its replay buffer itself (non-default horizon pairs): every learning window it could draw
     from vlib import mrq_windows
 
@@ -648,8 +655,57 @@ def readback_item(item, col):
     col.sample(dict(kind="tabular readback (lr=1, gamma=0)", learner=algo, scripts=item["scripts"][:4]))
 
 
+def mt_wrapper_item(item, col):
+    """select_task(t) + training run, repeated over a schedule of tasks: afterwards every task's buffer holds exactly the
+    transitions of the environments that were run while that task was selected."""
+    import types
+
+    from rl_blox.blox import replay_buffer as rbm
+
+    name = item["routine"]
+    inner_cls = rbm.LAP if name == "td3_lap" else rbm.ReplayBuffer
+    schedules = [[0, 1, 0, 2, 1], [2, 2, 0], [1, 0, 1, 0]]
+    scripts = ["ccTcc", "cUccc", "ccccc", "TcccU", "cccTc"]
+    for cap, sched in itertools.product(item["caps"], schedules):
+        rb = rbm.MultiTaskReplayBuffer(inner_cls(cap), 3)
+        per_task = {0: [], 1: [], 2: []}
+        prebuilt = None
+        err = None
+        for i, t in enumerate(sched):
+            script = scripts[(i + item["seed"]) % len(scripts)]
+            rb.select_task(t)
+            cfg = dict(env_horizon=len(script) + 3, seed=1 + item["seed"] + i, net_seed=item["seed"], learning_starts=10**6, replay_buffer=rb)
+            if prebuilt is not None:
+                cfg["prebuilt"] = prebuilt
+            run = D.run(name, script, **cfg)
+            prebuilt = run.prebuilt
+            if run.error is not None:
+                err = run.error
+                break
+            # observations of later runs on the same task carry on with distinct tags: shift the episode tag by the run index
+            per_task[t] += [(tr, i) for tr in run.env.transitions()]
+        col.tick(1, (name, cap, tuple(sched)))
+        if err is not None:
+            col.outcome("runs_aborted_by_env_guard:" + err)
+            continue
+        for t, lst in per_task.items():
+            inner = rb.buffers[t]
+            trans = [tr for tr, _ in lst]
+            fake = types.SimpleNamespace(name=name, env=types.SimpleNamespace(transitions=lambda trans=trans: trans), rb=inner)
+            n_before = len(col.violations) if hasattr(col, "violations") else 0
+            if not trans:
+                if len(inner) != 0:
+                    col.violation(SIG.format("train_" + name, "buffer-does-not-hold-the-last-min(n,N)-transitions"), dict(routine=name, task=t, schedule=sched, len=len(inner), expected=0))
+                continue
+            compare_buffer(fake, col, dict(warm=10**6, mode=f"multi-task wrapper, task {t} of schedule {sched}"), "+".join(scripts))
+            col.outcome("mt_wrapper_task_buffers_compared")
+    col.sample(dict(kind="multi-task wrapper under a single-task routine", routine=name, schedules=schedules, capacities=item["caps"]))
+
+
 def work(item, col):
     k = item["kind"]
+    if k == "mt-wrapper":
+        return mt_wrapper_item(item, col)
     if k == "tabular-readback":
         return readback_item(item, col)
     if k == "mrq-own-buffer":
